@@ -822,7 +822,13 @@ pub fn gen_c08(seed: u64, thorough: bool) -> Case {
         case.push(GK::NewGame { root: root_cmd(r), pre });
         for _ in 0..rng.range(2, 4) {
             case.push(GK::PosCur);
-            case.raw(format!("go depth {}", rng.range(1, dmax)));
+            if rng.chance(1, 3) {
+                // a depth limit together with a generous time budget: the limit is what ends the search
+                let polls = rng.log_uniform(5_000, 500_000);
+                case.raw(format!("go depth {} movetime {}", rng.range(1, dmax), movetime_for(&case, polls)));
+            } else {
+                case.raw(format!("go depth {}", rng.range(1, dmax)));
+            }
             if rng.chance(1, 2) {
                 case.raw("wait");
             }
